@@ -707,7 +707,11 @@ func trustedBase(externals []string) []string {
 		"termination is verified only for loops that carry a decreases clause",
 	}
 	for _, e := range externals {
-		tb = append(tb, "assumed contract for external function "+e)
+		if strings.HasPrefix(e, "trusted contract of ") {
+			tb = append(tb, "unchecked assumption: "+e)
+		} else {
+			tb = append(tb, "assumed contract for external function "+e)
+		}
 	}
 	return tb
 }
